@@ -22,4 +22,25 @@ for fn in sorted(os.listdir(os.path.join(HERE, 'selftest', 'refactors'))):
     finally:
         subprocess.call(['git', '-C', '/repo', 'worktree', 'remove', '--force', wt])
         shutil.rmtree(tmp, ignore_errors=True)
+# refactorings written by independent sub-agents (selftest/agent_refactors/<Cxx-rk>/patch.diff): same rule
+ar = os.path.join(HERE, 'selftest', 'agent_refactors')
+for rid in sorted(os.listdir(ar)) if os.path.isdir(ar) else []:
+    if len(sys.argv) > 1 and not any(a in rid for a in sys.argv[1:]):
+        continue
+    prop = rid.split('-')[0]
+    wt = tempfile.mkdtemp(prefix='rfrun_'); shutil.rmtree(wt)
+    tmp = tempfile.mkdtemp(prefix='rfout_')
+    subprocess.check_call(['git', '-C', '/repo', 'worktree', 'add', '-q', '--detach', wt, 'HEAD'])
+    try:
+        subprocess.check_call(['git', '-C', wt, 'apply', os.path.join(ar, rid, 'patch.diff')])
+        env = dict(os.environ, HOTXLFP_REPO=wt, VERIF_EVIDENCE_DIR=os.path.join(tmp, 'e'), VERIF_OUT_DIR=os.path.join(tmp, 'o'))
+        t0 = time.time()
+        r = subprocess.run([os.path.join(HERE, 'check'), prop], env=env, cwd=HERE, stdout=subprocess.PIPE, stderr=subprocess.STDOUT, universal_newlines=True)
+        lines = [l for l in r.stdout.splitlines() if l.startswith(('VIOLATION', 'CHECKER-ERROR'))]
+        und = len([l for l in r.stdout.splitlines() if l.startswith('UNDECIDED')])
+        res['agent:' + rid] = {'property': prop, 'exit': r.returncode, 'alarms': lines[:3], 'undecided_lines': und, 'wall_s': round(time.time() - t0, 1)}
+        print(rid, prop, 'exit', r.returncode, 'GREEN' if r.returncode == 0 else 'FALSE ALARM', lines[:2], 'undecided=%d' % und)
+    finally:
+        subprocess.call(['git', '-C', '/repo', 'worktree', 'remove', '--force', wt])
+        shutil.rmtree(tmp, ignore_errors=True)
 json.dump(res, open(os.path.join(HERE, 'selftest', 'refactors_result.json'), 'w'), indent=1)
